@@ -105,6 +105,25 @@ func c05Scenarios() []c05Scenario {
 				o.ev["doneRet"] = o.tick()
 			})
 		}},
+		{name: "H1c-two-waiters-enqueue-between", body: func(o *c05Obs) {
+			// two Done() calls in flight at once with an Enqueue between them: the later waiter must not be
+			// satisfied by whatever satisfies the earlier one
+			q := mk(o)
+			vsched.GoNamed("enqAB", func() {
+				o.enqueue(q, "A", nil)
+				o.enqueue(q, "B", nil)
+			})
+			vsched.GoNamed("done", func() {
+				o.ev["doneCall"] = o.tick()
+				q.Done()
+				o.ev["doneRet"] = o.tick()
+			})
+			vsched.GoNamed("done2", func() {
+				o.ev["done2Call"] = o.tick()
+				q.Done()
+				o.ev["done2Ret"] = o.tick()
+			})
+		}},
 		{name: "H2-enqueue-close-late-done", body: func(o *c05Obs) {
 			q := mk(o)
 			vsched.GoNamed("enqAB", func() {
@@ -234,8 +253,12 @@ func c05Judge(sc string, o *c05Obs, r *vsched.Result) (string, string) {
 	}
 	// Done
 	// (not judged when a close was requested before the wait began: the waiter itself is then "queued later")
-	if dc, ok := o.ev["doneCall"]; ok {
-		dr, returned := o.ev["doneRet"]
+	for _, w := range []string{"done", "done2"} {
+		dc, ok := o.ev[w+"Call"]
+		if !ok {
+			continue
+		}
+		dr, returned := o.ev[w+"Ret"]
 		if !returned {
 			// Done returns at once when its waiter is refused, so the waiter was accepted and never ran
 			return sc + "|done-never-returns", fmt.Sprintf("Done() never returned; outcome %s, blocked %v", r.Outcome, r.Blocked)
